@@ -457,4 +457,8 @@ def rule_integrator_conjuncts(ctx, rule):
                         n += 1
                         if v.value[3:] != k.value:
                             mismatch(rel, v.lineno, 'dict:%s' % k.value, k.value, v.value, repr(v.value))
+                    elif isinstance(k, ast.Constant) and isinstance(k.value, str) and isinstance(v, ast.Attribute) and v.attr.startswith('ri_'):
+                        n += 1                  # {"whfast": sim.ri_whfast, ...}: the table holds the structs themselves
+                        if v.attr[3:] != k.value:
+                            mismatch(rel, v.lineno, 'dict:%s' % k.value, k.value, v.attr, ast.unparse(v))
     ctx.covered(rule, 'settings structs consulted under a guard that names an integrator are those of that integrator (conjunctions, if-bodies, name tables)', n, floor=3)
